@@ -2,6 +2,7 @@ package c07
 
 import (
 	"fmt"
+	"strings"
 
 	"verif/mc/dump"
 	"verif/mc/gen/scale"
@@ -25,6 +26,9 @@ func scaleCases(tier string) []scalekit.Case {
 	}
 	for _, n := range scale.Sizes(40, 129) {
 		out = append(out, scalekit.Case{Shape: "many-augments", N: n})
+	}
+	for n := 1; n <= 24; n++ {
+		out = append(out, scalekit.Case{Shape: "two-revisions-many-imports", N: n})
 	}
 	return out
 }
@@ -65,9 +69,48 @@ func checkManyAugments(cs scalekit.Case) scalekit.Verdict {
 	return scalekit.OK()
 }
 
+// two revisions of a module, each with n imports and an augment through the last prefix, which the
+// older revision binds to lib(n) and the newer one to another module
+func checkTwoRevisions(cs scalekit.Case) scalekit.Verdict {
+	n := cs.N
+	var files []dump.File
+	for i := 1; i <= n; i++ {
+		files = append(files, dump.File{Name: fmt.Sprintf("lib%d.yang", i), Text: fmt.Sprintf(`module lib%d { namespace "urn:lib%d"; prefix l; container c; }`, i, i)})
+	}
+	files = append(files, dump.File{Name: "other.yang", Text: `module other { namespace "urn:other"; prefix o; container c; }`})
+	rev := func(date, last, leaf string) dump.File {
+		var sb strings.Builder
+		fmt.Fprintf(&sb, `module t { namespace "urn:t"; prefix t; `)
+		for i := 1; i < n; i++ {
+			fmt.Fprintf(&sb, "import lib%d { prefix p%d; } ", i, i)
+		}
+		fmt.Fprintf(&sb, "import %s { prefix p%d; } revision %s; augment /p%d:c { leaf %s { type string; } } }", last, n, date, n, leaf)
+		return dump.File{Name: "t@" + date + ".yang", Text: sb.String()}
+	}
+	files = append(files, rev("2020-01-01", fmt.Sprintf("lib%d", n), "from-old"), rev("2021-01-01", "other", "from-new"))
+	for _, reverse := range []bool{false, true} {
+		ms, errs, lerr := scalekit.Load(files, reverse)
+		if lerr != nil || len(errs) > 0 {
+			return scalekit.Bad("augment-of-an-existing-target-reported", "no errors", fmt.Sprint(lerr, dump.Errors(errs)))
+		}
+		oldC := toEntry(ms.Modules[fmt.Sprintf("lib%d", n)]).Dir["c"]
+		newC := toEntry(ms.Modules["other"]).Dir["c"]
+		if oldC.Dir["from-old"] == nil || len(oldC.Dir) != 1 {
+			return scalekit.Bad("augment-grafted-elsewhere", fmt.Sprintf("/lib%d:c holds exactly from-old", n), fmt.Sprint(len(oldC.Dir), oldC.Dir["from-old"] != nil))
+		}
+		if newC.Dir["from-new"] == nil || len(newC.Dir) != 1 {
+			return scalekit.Bad("augment-grafted-elsewhere", "/other:c holds exactly from-new", fmt.Sprint(len(newC.Dir), newC.Dir["from-new"] != nil))
+		}
+	}
+	return scalekit.OK()
+}
+
 func checkScale(cs scalekit.Case) scalekit.Verdict {
 	if cs.Shape == "many-augments" {
 		return checkManyAugments(cs)
+	}
+	if cs.Shape == "two-revisions-many-imports" {
+		return checkTwoRevisions(cs)
 	}
 	var files []dump.File
 	var path []string
